@@ -251,6 +251,94 @@ static int exit_scenario(unsigned long long seed, std::size_t fence_extra)
     return 0; // the report, if any, is made after main returns
 }
 
+//=== C03: failure of the low-level allocators themselves (the system refuses the memory) ===//
+static int oom_calls, bad_calls;
+template <class A>
+static void oom_probe(const char* name)
+{
+    using traits = allocator_traits<A>;
+    A                 a;
+    const std::size_t maxn = traits::max_node_size(a), maxa = traits::max_array_size(a);
+    std::printf("oom %s max_node=%zu max_array=%zu\n", name, maxn, maxa);
+    struct Req
+    {
+        std::size_t count, size; // count == 0: node
+    };
+    std::vector<Req> reqs;
+    const std::size_t big[] = {std::size_t(1) << 48, std::size_t(1) << 55, std::size_t(1) << 62, (std::size_t(1) << 63) - 4096,
+                               maxn, maxn - 1, maxn - 4095, maxn / 2 + 1};
+    for (auto b : big)
+        if (b >= (std::size_t(1) << 48) && b <= maxn)
+        {
+            reqs.push_back({0, b});
+            reqs.push_back({b / 4096, 4096});
+        }
+    // (requests beyond max_node_size() / max_array_size() are outside the RawAllocator contract: "the maximum value allowed")
+    for (auto& r : reqs)
+    {
+        oom_calls = bad_calls = 0;
+        void*       p = nullptr;
+        const char* kind = "ok";
+        try
+        {
+            p = r.count ? traits::allocate_array(a, r.count, r.size, 8) : traits::allocate_node(a, r.size, 8);
+        }
+        catch (const bad_allocation_size&)
+        {
+            kind = "bad_size";
+        }
+        catch (const out_of_memory&)
+        {
+            kind = "oom";
+        }
+        catch (const std::bad_alloc&)
+        {
+            kind = "bad_alloc";
+        }
+        catch (...)
+        {
+            kind = "other";
+        }
+        const std::size_t bytes = r.count ? r.count * r.size : r.size;
+        const bool        too_big = r.count ? (r.size > maxn || bytes > maxa) : r.size > maxn;
+        std::string       what = fmt("%s %s(%zu,%zu)", name, r.count ? "allocate_array" : "allocate_node", r.count, r.size);
+        std::printf("oom-case %s -> %s oom_handler=%d bad_handler=%d\n", what.c_str(), kind, oom_calls, bad_calls);
+        if (std::string(kind) == "ok")
+        { // no system hands out 2^48 bytes: a pointer here means the size computation wrapped
+            if (!p)
+                failures.push_back(fmt("C03 %s returned nullptr instead of throwing", what.c_str()));
+            else
+                failures.push_back(fmt("C03/C02 %s returned a pointer although %zu bytes cannot be had (size computation wrapped)", what.c_str(), bytes));
+        }
+        else if (std::string(kind) == "other" || std::string(kind) == "bad_alloc")
+            failures.push_back(fmt("C03 %s failed with an exception outside the library's bad_allocation_size / out_of_memory families", what.c_str()));
+        else if (too_big && !((std::string(kind) == "bad_size" && bad_calls == 1 && oom_calls == 0)
+                              || (std::string(kind) == "oom" && oom_calls == 1 && bad_calls == 0)))
+            failures.push_back(fmt("C03 %s (beyond the reported maximum): expected bad_allocation_size or out_of_memory with exactly its handler called once, got %s (handlers %d/%d)",
+                                   what.c_str(), kind, bad_calls, oom_calls));
+        else if (!too_big && !(std::string(kind) == "oom" && oom_calls == 1 && bad_calls == 0))
+            failures.push_back(fmt("C03 %s: expected out_of_memory with its handler called once, got %s (handlers %d/%d)", what.c_str(), kind,
+                                   oom_calls, bad_calls));
+        // the allocator must still serve a valid request
+        void* q = nullptr;
+        try
+        {
+            q = traits::allocate_node(a, 64, 8);
+        }
+        catch (...)
+        {
+        }
+        if (!q)
+            failures.push_back(fmt("C03 %s: a valid request after the failure was not served", what.c_str()));
+        else
+        {
+            std::memset(q, 0x5a, 64);
+            traits::deallocate_node(a, q, 64, 8);
+        }
+        ++n_cases;
+    }
+}
+
 int main(int argc, char** argv)
 {
     if (argc > 3 && std::string(argv[1]) == "exit")
@@ -267,6 +355,23 @@ int main(int argc, char** argv)
             return exit_scenario<new_allocator>(sd, extra);
 #endif
         return 3;
+    }
+    if (argc > 1 && std::string(argv[1]) == "oom")
+    {
+        out_of_memory::set_handler([](const allocator_info&, std::size_t) { ++oom_calls; });
+        bad_allocation_size::set_handler([](const allocator_info&, std::size_t, std::size_t) { ++bad_calls; });
+        std::setvbuf(stdout, nullptr, _IOLBF, 0);
+        std::printf("header subject=lowlevel-oom %s\n", cfg_string().c_str());
+        oom_probe<heap_allocator>("heap");
+#if FOONATHAN_HOSTED_IMPLEMENTATION
+        oom_probe<malloc_allocator>("malloc");
+        oom_probe<new_allocator>("new");
+#endif
+        oom_probe<virtual_memory_allocator>("virtual");
+        for (auto& f : failures)
+            std::printf("oracle-fail %s\n", f.c_str());
+        std::printf("summary ops=%ld ok=%ld null=0 throw=%ld grow=0 oracle_checks=%ld\n", n_cases, 0L, n_cases, n_cases);
+        return 0;
     }
     bool               thorough = argc > 1 && std::atoi(argv[1]) != 0;
     unsigned long long seed = argc > 2 ? std::strtoull(argv[2], nullptr, 10) : 1;
